@@ -133,3 +133,28 @@ func Keys[K comparable, V any](m map[K]V) []K {
 	sortKeys(keys)
 	return keys
 }
+
+// LiveDescendants lists unfinished goroutines whose creator chain leads to a goroutine with id in [a,b).
+func LiveDescendants(a, b int) []ParkedInfo {
+	w := W
+	if w == nil {
+		return nil
+	}
+	var out []ParkedInfo
+	for _, g := range w.gs {
+		if g.state == gDone || g == w.cur {
+			continue
+		}
+		for x := g; x != nil; {
+			if x.id >= a && x.id < b {
+				out = append(out, ParkedInfo{g.id, g.name, g.parkOp})
+				break
+			}
+			if x.parent < 0 || x.parent >= len(w.gs) {
+				break
+			}
+			x = w.gs[x.parent]
+		}
+	}
+	return out
+}
